@@ -78,6 +78,10 @@ func genC04(t *simrt.Tape, tier string) interface{} {
 		p.Faults = benignFaults(t, 2000)
 		p.Back = benignFaults(t, 2000)
 	}
+	if p.Conf.Listeners[0] == "wss" {
+		// no bounded send buffer under library-managed TLS (see DESIGN.md, limits)
+		p.Faults.Capacity, p.Back.Capacity = 0, 0
+	}
 	return p
 }
 
@@ -186,7 +190,13 @@ func checkDelivery(w *World, dir, transport string, recs [][]sentRec, got *sink)
 			}
 		}
 	}
-	for key, e := range sentOK {
+	okKeys := make([]string, 0, len(sentOK))
+	for key := range sentOK {
+		okKeys = append(okKeys, key)
+	}
+	sortStrings(okKeys)
+	for _, key := range okKeys {
+		e := sentOK[key]
 		if !seen[key] {
 			w.Violate("C04.sent-not-delivered", sig(kindNames[e.Kind]), "%s %q was sent successfully but never delivered (session stayed established)", kindNames[e.Kind], e.ID)
 			break
@@ -236,6 +246,9 @@ func runC04(w *World, pi interface{}) {
 	}
 	p.Conf.Listeners = p.Conf.Listeners[:1]
 	p.Cli.L = 0
+	if p.Conf.Listeners[0] == "wss" {
+		p.Faults.Capacity, p.Back.Capacity = 0, 0
+	}
 	FixSelector(p.Conf.Listeners[0], &p.Cli)
 	srvSink, cliSink := &sink{}, &sink{}
 	nSrv := 0
